@@ -203,3 +203,25 @@ func solveAll(vcs []*VC, prelude, dir string, timeoutS, seed, workers int, twoSo
 	close(ch)
 	wg.Wait()
 }
+
+// provable: eager side query used for sound simplifications ("cuts") during generation.
+func (fv *FnV) provable(st *State, goal string) bool {
+	if fv.spec || st.dead {
+		return false
+	}
+	var body strings.Builder
+	for _, d := range fv.decls {
+		body.WriteString(d + "\n")
+	}
+	for _, h := range st.pc {
+		body.WriteString("(assert " + h + ")\n")
+	}
+	body.WriteString("(assert (not " + goal + "))\n(check-sat)\n")
+	text := fv.smt.PreludeFor(body.String()) + body.String()
+	os.MkdirAll("/verif/out/cuts", 0o755)
+	fv.ncut++
+	file := fmt.Sprintf("/verif/out/cuts/%s_%d.smt2", sanitizeFile(fv.instName), fv.ncut)
+	os.WriteFile(file, []byte(text), 0o644)
+	r := runSolver(context.Background(), solvers[0], file, 2, 0)
+	return r.status == "unsat"
+}
